@@ -320,4 +320,34 @@ func (g *c02) hostPatterns() {
 			}
 		}
 	})
+	// files of several lines: the same key under several names with different comments (or none), other
+	// keys in between, in every rotation - each entry has to be described from its own line
+	pubs := g.sshPubs()
+	for i := range pubs {
+		p, q := pubs[i], pubs[(i+1)%len(pubs)]
+		type ent struct {
+			p       sshPub
+			hosts   string
+			comment string
+		}
+		ents := []ent{{p, "first.example", "alpha"}, {q, "other.example,10.0.0.1", "between"}, {p, "second.example", ""},
+			{p, "[third.example]:2222", "omega"}, {q, "other2.example", ""}}
+		for rot := 0; rot < len(ents); rot++ {
+			var lines [][]byte
+			var specs []Sx
+			for k := range ents {
+				e := ents[(k+rot)%len(ents)]
+				line := e.hosts + " " + e.p.typ + " " + base64.StdEncoding.EncodeToString(e.p.blob)
+				cm := kv{"Comment", e.comment}
+				if e.comment == "" {
+					cm = absent("Comment")
+				} else {
+					line += " " + e.comment
+				}
+				lines = append(lines, []byte(line))
+				specs = append(specs, e.p.spec([]kv{{"Hosts", strings.ReplaceAll(e.hosts, ",", ", ")}, {"Type", e.p.typ}, cm}))
+			}
+			g.khfile(fmt.Sprintf("repeat-%d", rot), lines, specs)
+		}
+	}
 }
